@@ -300,6 +300,54 @@ def _nonempty(db, f, n, K):
     return PARALLEL.get((f.name.split('::')[-1], obj.get('txt', '')))
 
 
+_RFE = {}
+
+
+def _reference_fields_exist(db):
+    """ExtractMorpho reads the last field of a reference. It is called by Reference::Parse only for what DeduceRefType classified as an entity
+    reference, which has at least EntityRef::fieldCount fields; the branch that reads the last of the remaining fields is entered with more.
+    Decided by interpreting Reference::Parse (SplitReference, DeduceRefType, ExtractMorpho from their source) on every marker of up to four
+    fields over a few field texts, the empty one included: no element of an empty or too short sequence is read (the interpreter reports any
+    such read)."""
+    if 'v' in _RFE:
+        return _RFE['v']
+    import itertools
+    LL = 'ccl::lang::'
+    ps = db.fn(LL + 'Reference::Parse', required=False)
+    why = None
+    if ps is not None:
+        def on_call(it, fn, n, env):
+            cs = n.get('cs') or ''
+            if n['k'] in ('CXXConstructExpr', 'CXXTemporaryObjectExpr') and (n.get('cls') or '') == LL + 'Morphology' and len(n.get('args', [])) == 1 and not n.get('copyctor') and not n.get('movector'):
+                a = it.eval(fn, fn.stmts[n['args'][0]], env)
+                return Obj(__cls__=LL + 'Morphology', n=len(a) if isinstance(a, list) else len(bytes(a)))
+            if cs == 'std::empty' and n.get('args'):
+                o = it.eval(fn, fn.stmts[n['args'][0]], env)
+                if isinstance(o, Obj) and o.get('__cls__') == LL + 'Morphology':
+                    return o['n'] == 0
+            if cs == 'std::stoi' and n.get('args'):
+                t_ = bytes(it.eval(fn, fn.stmts[n['args'][0]], env)).decode('ascii', 'replace')
+                try:
+                    return int(t_)
+                except ValueError:
+                    raise OutOfFragment('std::stoi("%s") throws' % t_)
+            if cs == '__assert_fail':
+                return None
+            return NOT_HANDLED
+        fields = ['', 'X1', '1', 'nomn', '-']
+        cases = 0
+        try:
+            for k in range(0, 5):
+                for combo in itertools.product(fields, repeat=k):
+                    Interp(db, on_call=on_call, max_steps=400000).call(ps, [('@{' + '|'.join(combo) + '}').encode()])
+                    cases += 1
+            why = 'Reference::Parse interpreted on %d markers of up to four fields (empty fields included): the last field exists whenever it is read' % cases
+        except OutOfFragment:
+            why = None
+    _RFE['v'] = why
+    return why
+
+
 PARALLEL = {
     ('SemanticCheck', 'parents'): '`parents` is pushed and popped in lock-step with `stack`, which the loop condition shows non-empty',
     ('ProcessTupleDeclaration', 'pathStack'): '`pathStack` is pushed and popped in lock-step with `nodeStack`, which the loop condition shows non-empty',
@@ -479,6 +527,8 @@ def no_escape(db, rule, rep):
                 pls = _pl_nodes_have_a_child(db)
                 if pls and all(ok for _, ok in pls) and any(c.get('txt', '').count('PUNC_PL') for c, pol in (dominating_guards(f, f.position_of(n)) if f.position_of(n) else [])):
                     why = 'a PUNC_PL node: created only in %s, which attaches the operand' % '/'.join(sorted({a for a, _ in pls}))
+            if why is None and f.name.endswith('::ExtractMorpho') and kind.startswith('deref-'):
+                why = _reference_fields_exist(db)
             if why is None:
                 why = DECIDED_ELSEWHERE.get(inst)
             if why:
@@ -656,6 +706,12 @@ def check(db, rep):
     parser_loud(db, r2, rep)
     from rules import C03
     C03.loud_rule(db, rep, r2, C03.AUDITORS, 'the analysis reports failure with an empty error list', prefix='auditors_')
+    # the facades that chain the steps: a refusal of the facade is the refusal of a loud step, never a silent early return
+    facades = [f for f in db.functions if f.has_cfg() and f.name in (R + 'Interpreter::Evaluate',)]
+    if not facades:
+        r2.broken('anchor vanished: Interpreter::Evaluate')
+    else:
+        C03.loud_rule(db, rep, r2, [], 'Interpreter::Evaluate answers "no value" with an empty error list (Evaluate("") - Parser::Parse("") would have logged the syntax error)', prefix='facade_', extra_fns=facades)
     from rules import shared_visitors as sv
     from rules import C02
     tg = sv.tree_grammar(db)
